@@ -37,6 +37,8 @@ type intEnc struct {
 	vlo     map[string]*big.Int
 	vhi     map[string]*big.Int
 	vars    map[string]*Term
+	tloS, thiS map[int]*big.Int // signed-canonical bounds on arbitrary terms
+	tloU, thiU map[int]*big.Int // unsigned-canonical bounds
 	failed  string
 	nameSeq int
 }
@@ -125,6 +127,45 @@ func (ie *intEnc) collectRanges(asserts []*Term) {
 			if neg {
 				a, b = b, a
 				strict = !strict
+			}
+			if a.Op != OpVar && a.Op != OpConst && b.IsConst() {
+				// bound on a compound term
+				var c *big.Int
+				if signed {
+					c = sval(b)
+				} else {
+					c = new(big.Int).Set(b.bigVal())
+				}
+				if strict {
+					c = new(big.Int).Sub(c, bigOne)
+				}
+				m := ie.thiU
+				if signed {
+					m = ie.thiS
+				}
+				if cur, ok := m[a.ID]; !ok || c.Cmp(cur) < 0 {
+					m[a.ID] = c
+				}
+				return
+			}
+			if b.Op != OpVar && b.Op != OpConst && a.IsConst() {
+				var c *big.Int
+				if signed {
+					c = sval(a)
+				} else {
+					c = new(big.Int).Set(a.bigVal())
+				}
+				if strict {
+					c = new(big.Int).Add(c, bigOne)
+				}
+				m := ie.tloU
+				if signed {
+					m = ie.tloS
+				}
+				if cur, ok := m[b.ID]; !ok || c.Cmp(cur) > 0 {
+					m[b.ID] = c
+				}
+				return
 			}
 			if a.Op == OpVar && b.IsConst() {
 				if varSigned(a) != signed {
@@ -254,11 +295,49 @@ func (ie *intEnc) tr(t *Term) *ival {
 		return r
 	}
 	r := ie.tr1(t)
+	r = ie.clamp(t, r)
 	// keep intervals from exploding
 	if new(big.Int).Sub(r.hi, r.lo).BitLen() > 3*t.W+8 {
 		r = ie.normU(r, t.W)
 	}
 	ie.memo[t.ID] = r
+	return r
+}
+
+// clamp applies bounds asserted at top level on this very term.
+func (ie *intEnc) clamp(t *Term, r *ival) *ival {
+	lo, okl := ie.tloS[t.ID]
+	hi, okh := ie.thiS[t.ID]
+	if okl || okh {
+		n := ie.normS(r, t.W)
+		c := &ival{e: n.e, lo: n.lo, hi: n.hi, tz: n.tz}
+		if okl && lo.Cmp(c.lo) > 0 {
+			c.lo = lo
+		}
+		if okh && hi.Cmp(c.hi) < 0 {
+			c.hi = hi
+		}
+		if c.lo.Cmp(c.hi) > 0 {
+			c.hi = c.lo
+		}
+		r = c
+	}
+	lo, okl = ie.tloU[t.ID]
+	hi, okh = ie.thiU[t.ID]
+	if okl || okh {
+		n := ie.normU(r, t.W)
+		c := &ival{e: n.e, lo: n.lo, hi: n.hi, tz: n.tz}
+		if okl && lo.Cmp(c.lo) > 0 {
+			c.lo = lo
+		}
+		if okh && hi.Cmp(c.hi) < 0 {
+			c.hi = hi
+		}
+		if c.lo.Cmp(c.hi) > 0 {
+			c.hi = c.lo
+		}
+		r = c
+	}
 	return r
 }
 
@@ -369,6 +448,14 @@ func (ie *intEnc) tr1(t *Term) *ival {
 		}
 		if b.IsConst() {
 			cv := b.bigVal()
+			// single-bit mask: test that bit (works through and/or/not/ite)
+			if cv.Sign() > 0 && new(big.Int).And(cv, new(big.Int).Sub(cv, bigOne)).Sign() == 0 && cv.BitLen() > 1 {
+				k := cv.BitLen() - 1
+				bit := ie.bitOf(a, k)
+				r := ie.mk(fmt.Sprintf("(ite %s %s 0)", bit, cv), new(big.Int), new(big.Int).Set(cv))
+				r.tz = k
+				return r
+			}
 			cp1 := new(big.Int).Add(cv, bigOne)
 			if cp1.BitLen() > 0 && new(big.Int).And(cp1, cv).Sign() == 0 { // mask 2^k-1
 				k := cp1.BitLen() - 1
@@ -391,6 +478,24 @@ func (ie *intEnc) tr1(t *Term) *ival {
 		}
 		ie.fail("bvand of symbolic operands")
 	case OpBOr:
+		{
+			x, c := t.Args[0], t.Args[1]
+			if x.IsConst() {
+				x, c = c, x
+			}
+			if c.IsConst() {
+				cv := c.bigVal()
+				if cv.Sign() > 0 && new(big.Int).And(cv, new(big.Int).Sub(cv, bigOne)).Sign() == 0 {
+					k := cv.BitLen() - 1
+					a := ie.normU(ie.tr(x), w)
+					if a.hi.Cmp(cv) < 0 {
+						return ie.mk(fmt.Sprintf("(+ %s %s)", a.e, cv), new(big.Int).Add(a.lo, cv), new(big.Int).Add(a.hi, cv))
+					}
+					bit := ie.bitOf(x, k)
+					return ie.mk(fmt.Sprintf("(ite %s %s (+ %s %s))", bit, a.e, a.e, cv), a.lo, bmin(new(big.Int).Add(a.hi, cv), new(big.Int).Sub(pow2(w), bigOne)))
+				}
+			}
+		}
 		a, b := ie.normU(ie.tr(t.Args[0]), w), ie.normU(ie.tr(t.Args[1]), w)
 		if a.tz > 0 && b.hi.Cmp(pow2(a.tz)) < 0 {
 			return ie.mk(fmt.Sprintf("(+ %s %s)", a.e, b.e), new(big.Int).Add(a.lo, b.lo), new(big.Int).Add(a.hi, b.hi))
@@ -475,6 +580,36 @@ func (ie *intEnc) tr1(t *Term) *ival {
 	return nil
 }
 
+// bitOf: Bool expression for bit k of t.
+func (ie *intEnc) bitOf(t *Term, k int) string {
+	switch t.Op {
+	case OpConst:
+		if t.bigVal().Bit(k) == 1 {
+			return "true"
+		}
+		return "false"
+	case OpBAnd:
+		return ie.define("Bool", fmt.Sprintf("(and %s %s)", ie.bitOf(t.Args[0], k), ie.bitOf(t.Args[1], k)))
+	case OpBOr:
+		return ie.define("Bool", fmt.Sprintf("(or %s %s)", ie.bitOf(t.Args[0], k), ie.bitOf(t.Args[1], k)))
+	case OpBXor:
+		return ie.define("Bool", fmt.Sprintf("(xor %s %s)", ie.bitOf(t.Args[0], k), ie.bitOf(t.Args[1], k)))
+	case OpBNot:
+		return ie.define("Bool", fmt.Sprintf("(not %s)", ie.bitOf(t.Args[0], k)))
+	case OpIte:
+		return ie.define("Bool", fmt.Sprintf("(ite %s %s %s)", ie.trb(t.Args[0]), ie.bitOf(t.Args[1], k), ie.bitOf(t.Args[2], k)))
+	}
+	x := ie.normU(ie.tr(t), t.W)
+	p := pow2(k)
+	if x.hi.Cmp(p) < 0 {
+		return "false"
+	}
+	if k == t.W-1 {
+		return ie.define("Bool", fmt.Sprintf("(>= %s %s)", x.e, p))
+	}
+	return ie.define("Bool", fmt.Sprintf("(= (mod (div %s %s) 2) 1)", x.e, p))
+}
+
 func (ie *intEnc) trb(t *Term) string {
 	if t.W != 0 {
 		panic("intEnc.trb on BV")
@@ -539,7 +674,8 @@ func (ie *intEnc) trb(t *Term) string {
 // intEncode renders the query; ok=false when some operation has no integer
 // translation.
 func intEncode(asserts []*Term, vars []*Term) (text string, varOrder []*Term, ok bool, why string) {
-	ie := &intEnc{memo: map[int]*ival{}, bmemo: map[int]string{}, vlo: map[string]*big.Int{}, vhi: map[string]*big.Int{}, vars: map[string]*Term{}}
+	ie := &intEnc{memo: map[int]*ival{}, bmemo: map[int]string{}, vlo: map[string]*big.Int{}, vhi: map[string]*big.Int{}, vars: map[string]*Term{},
+		tloS: map[int]*big.Int{}, thiS: map[int]*big.Int{}, tloU: map[int]*big.Int{}, thiU: map[int]*big.Int{}}
 	defer func() {
 		if r := recover(); r != nil {
 			if f, isF := r.(encFail); isF {
